@@ -1,2 +1,16 @@
 #!/usr/bin/env python3
-print("setup placeholder")
+"""setup_cmd: build the harness offline and pre-generate the TLC case files (gen/)."""
+import os, sys
+sys.path.insert(0, os.path.dirname(os.path.abspath(__file__)))
+import vlib
+
+
+def main():
+    vlib.build_harness()
+    import gens
+    gens.all_gens()
+    print("setup ok")
+    return 0
+
+
+vlib.main_wrapper(main)
